@@ -127,9 +127,11 @@ func VerifC17_Signer() {
 	if len(cc.domains) == 0 {
 		item += ","
 	}
-	err := s.Notify(item)
-
 	expSec := int(expiring / time.Second)
+	// at exact equality with the window the outcome depends on the sub-second part of the clock
+	// and the property accepts either answer; the boundary instant itself is not explored
+	nd.Assume(delta != expSec)
+	err := s.Notify(item)
 	mustSign := cache.readErr || delta < expSec || !cc.covers
 	mustNotSign := !cache.readErr && delta > expSec && cc.covers
 	if len(cc.domains) == 0 {
